@@ -44,6 +44,17 @@ func Harness_C10_online_counter_step() {
 			owner = append(owner, u)
 		}
 	}
+	// a root session acting on behalf of user 0: the session's own user differs from the user it is attached for
+	{
+		s := verifNewSession("sid-root", verifRootUid, auth.LevelRoot, 32)
+		s.inflightReqs = newBoundedWaitGroup(8)
+		if verifNondetBool("rootAttachedForUser0") {
+			t.sessions[s] = perSessionData{uid: fx.uids[0]}
+			s.subs[t.name] = &Subscription{broadcast: t.clientMsg, done: t.unreg, meta: t.meta, supd: t.supd}
+		}
+		sess = append(sess, s)
+		owner = append(owner, fx.uids[0])
+	}
 	for _, u := range fx.uids {
 		pud := t.perUser[u]
 		pud.online = verifCountForeground(t, u)
@@ -52,7 +63,7 @@ func Harness_C10_online_counter_step() {
 	k := verifChoose("session", len(sess))
 	s, u := sess[k], owner[k]
 	_, attached := t.sessions[s]
-	base := ClientComMessage{Id: "r1", AsUser: u.UserId(), AuthLvl: int(auth.LevelAuth), Original: t.name, RcptTo: t.name,
+	base := ClientComMessage{Id: "r1", AsUser: u.UserId(), AuthLvl: int(s.authLvl), Original: t.name, RcptTo: t.name,
 		Timestamp: types.TimeNow(), sess: s, init: true}
 	switch verifChoose("event", 7) {
 	case 0: // attach
